@@ -10,10 +10,11 @@ COMMON_NOTE = ("Trusted: Lean 4.33 kernel; axioms limited to propext/Quot.sound/
 CLAIMED = {
     "C20": dict(
         text="Proof over the whole finite quantifier (9 categories x 256 bytes) by kernel evaluation of the model of to_reason_code on the tables "
-             "regenerated from reason_codes.hpp on every run; the model is tied to the code exhaustively (all 2304 inputs through the real function under ASan).",
+             "regenerated from reason_codes.hpp on every run; the model is tied to the code exhaustively (all 2304 inputs through the real function under ASan). "
+             "The category requested at the PUBACK / PUBREC / PUBCOMP call sites is checked exhaustively (3 x 256 codes through the real publish_send_op); SUBACK/UNSUBACK call sites by the C14 verdict tie, CONNACK by the C10 handshake tie.",
         note=COMMON_NOTE + "The guard shape of to_reason_code and the nine tables are extracted by a translator; the compiled tables are cross-checked against the extraction on every run.",
         technique="Lean 4 theorems (decide +kernel over the finite table) + translator + exhaustive differential run under ASan",
-        design="§5 C20", engine="h_rc"),
+        design="§5 C20", engine="h_rc,h_pubsend"),
     "C06": dict(
         text="Proof, on the ordering core: inside the window of fewer than 2^31 publishes per client object the model of write_req::operator< is the lexicographic strict weak order "
              "(prioritized, serial), and the modelled re-send sort is a permutation, has no inversion and is stable, so PUBLISH requests leave in serial = initiation order "
@@ -105,7 +106,7 @@ CLAIMED.update({
                 note=COMMON_NOTE + CLIENT_NOTE, technique="Lean 4 theorem on the verdict model + differential through the real client; trace monitor", design="§5 C01/C14", engine="h_client,h_replies"),
     "C15": dict(text="Proof: model of publish/subscribe perform + validation chains (Except error bytes): an accepted request respects Maximum Packet Size, Maximum QoS, Retain Available, Topic Alias Maximum, wildcard/shared/identifier availability; documented errors in precedence order; size boundary. "
                      "Tied by requests at every capability boundary through the real client holding such a CONNACK: packet bytes or immediate error compared with the model.",
-                note=COMMON_NOTE + CLIENT_NOTE + "unsubscribe/disconnect validation is covered by the differential generator of C16/C17 only.", technique="Lean 4 theorems on the validation model + differential through the real client", design="§5 C15", engine="h_client"),
+                note=COMMON_NOTE + CLIENT_NOTE + "unsubscribe/disconnect validation is covered by the differential generator of C16/C17 only. That connect_op stores the accepted CONNACK's properties (the validators' only source) is checked on the real connect_op by the C15 stream monitor (H-stream, with and without authenticator), not proved.", technique="Lean 4 theorems on the validation model + differential through the real client; stored-capabilities monitor on the real connect_op", design="§5 C15", engine="h_client,h_stream"),
 })
 
 CLAIMED.update({
@@ -186,7 +187,8 @@ def main():
             {"name": "h_codec", "path": "/verif/harness/h_codec.cpp", "serves_properties": ["C17"], "kind_free_text": "real message encoders (and decoders) on textual packet descriptions"},
             {"name": "h_pid", "path": "/verif/harness/h_pid.cpp", "serves_properties": ["C08"], "kind_free_text": "real packet_id_allocator, alloc/free scripts, state dump"},
             {"name": "h_mutex", "path": "/verif/harness/h_mutex.cpp", "serves_properties": ["C11"], "kind_free_text": "real async_mutex with per-waiter cancellation slots on a polled io_context"},
-            {"name": "h_stream", "path": "/verif/harness/h_stream.cpp", "serves_properties": ["C02","C10","C11","C12","C19"], "kind_free_text": "real autoconnect_stream, reconnect_op, connect_op, read_op, write_op, shutdown_op, resolve_op, endpoints::brokers parser over a scripted socket, resolver and virtual clock (immediate or deferred cancellation); driven online by lib/stream_gen.py"},
+            {"name": "h_stream", "path": "/verif/harness/h_stream.cpp", "serves_properties": ["C02","C10","C11","C12","C15","C19"], "kind_free_text": "real autoconnect_stream, reconnect_op, connect_op, read_op, write_op, shutdown_op, resolve_op, endpoints::brokers parser over a scripted socket, resolver and virtual clock (immediate or deferred cancellation); driven online by lib/stream_gen.py"},
+            {"name": "h_pubsend", "path": "/verif/harness/h_pubsend.cpp", "serves_properties": ["C01","C03","C05","C08","C20"], "kind_free_text": "real publish_send_op (QoS 1 and 2) on a mock service: every async_send / async_wait_reply logged and completed by script"},
             {"name": "h_frame", "path": "/verif/harness/h_frame.cpp", "serves_properties": ["C19"], "kind_free_text": "real assemble_op on a mock service: broker bytes in any chunking, every recognised packet and read size logged"},
             {"name": "h_guard", "path": "/verif/harness/h_guard.cpp", "serves_properties": ["C18","C19"], "kind_free_text": "real message decoders on packets in exact-size heap blocks under ASan/UBSan"},
         ],
